@@ -133,3 +133,77 @@ def init_fields(c: ClassInfo) -> Dict[str, ast.AST]:
                 if is_self_attr(t) and t.attr not in out:
                     out[t.attr] = n
     return out
+
+
+# ---------------------------------------------------------------------- key <-> attribute binding on both sides
+def _self_attrs(canon, e: ast.AST) -> Set[str]:
+    """Attributes of self read by expression ``e`` (trivial properties resolved to the attribute they return)."""
+    out: Set[str] = set()
+    for n in ast.walk(e):
+        if isinstance(n, ast.Attribute) and isinstance(n.value, ast.Name) and n.value.id == 'self' and isinstance(n.ctx, ast.Load):
+            ce = canon.expr(n)
+            for m in ast.walk(ce):
+                if isinstance(m, ast.Attribute) and isinstance(m.value, ast.Name) and m.value.id == 'self':
+                    out.add(m.attr)
+    return out
+
+
+def saved_bindings(ctx, f: FuncInfo) -> Dict[object, Set[str]]:
+    """key -> attributes of self whose value is stored under that key by a save_instance_state."""
+    from ..facts import Canon
+    canon = Canon(ctx.prog, ctx.calls, f)
+    out: Dict[object, Set[str]] = {}
+    for k, v in saved_keys_of(ctx.prog, f).items():
+        out[k] = _self_attrs(canon, v)
+    return out
+
+
+def loaded_bindings(ctx, f: FuncInfo) -> Dict[object, Set[str]]:
+    """key -> attributes of self assigned from the value stored under that key by a load_instance_state
+    (through local variables, transitively)."""
+    prog = ctx.prog
+    p = _state_param(f)
+    uses = loaded_keys_of(prog, f)
+    node_key: Dict[int, object] = {}
+    for k, sites in uses.items():
+        for s in sites:
+            node_key[id(s)] = k
+
+    def keys_in(e: ast.AST, env: Dict[str, Set[object]]) -> Set[object]:
+        ks: Set[object] = set()
+        for n in ast.walk(e):
+            if id(n) in node_key:
+                ks.add(node_key[id(n)])
+            if isinstance(n, ast.Name) and n.id in env:
+                ks |= env[n.id]
+        return ks
+
+    env: Dict[str, Set[object]] = {}
+    out: Dict[object, Set[str]] = {k: set() for k in uses}
+    # two passes so that order of local assignments does not matter
+    for _ in range(2):
+        for n in walk_shallow(ast.Module(body=f.node.body, type_ignores=[])):
+            if isinstance(n, (ast.Assign, ast.AnnAssign)) and n.value is not None:
+                tg = n.targets if isinstance(n, ast.Assign) else [n.target]
+                ks = keys_in(n.value, env)
+                if not ks:
+                    continue
+                for t in tg:
+                    if isinstance(t, ast.Name):
+                        env.setdefault(t.id, set()).update(ks)
+                    elif is_self_attr(t):
+                        for k in ks:
+                            out.setdefault(k, set()).add(t.attr)
+    return out
+
+
+def context_kwargs(prog: Program) -> Dict[str, List[Tuple[FuncInfo, ast.Call]]]:
+    """keyword -> sites ``LoadSaveContext(kw=...)`` / ``copyextend(kw=...)`` across the package."""
+    out: Dict[str, List[Tuple[FuncInfo, ast.Call]]] = {}
+    for f in prog.all_funcs():
+        for n in walk_shallow(ast.Module(body=f.body, type_ignores=[])):
+            if isinstance(n, ast.Call) and unparse(n.func).split('.')[-1] in ('LoadSaveContext', 'copyextend'):
+                for kw in n.keywords:
+                    if kw.arg:
+                        out.setdefault(kw.arg, []).append((f, n))
+    return out
